@@ -278,16 +278,18 @@ class _Watchdog(threading.Thread):
             time.sleep(2)
 
 
-def run_harnesses(crate, harness_names, jobs=8, harness_timeout=600, total_timeout=3000, extra_flags=(), heavy=(), batch=None, huge=()):
+def run_harnesses(crate, harness_names, jobs=8, harness_timeout=600, total_timeout=3000, extra_flags=(), heavy=(), batch=None, huge=(), mid=()):
     """Run the harnesses in batches (one `cargo kani` invocation each) and merge the exported results.
 
     kani-driver holds the CBMC output of every harness of an invocation in memory; harnesses listed in `heavy` (long unwindings: several
-    GB of driver memory each) run in their own batches with at most 3 jobs, the others in batches of FV_BATCH (default 40)."""
+    GB of driver memory each) run in their own batches of 3 with at most 3 jobs, `mid` (1 - 3 GB each) in batches of 8 with at most 4 jobs,
+    `huge` (> 20 GB) alone, the others in batches of FV_BATCH (default 40)."""
     huge = [h for h in harness_names if h in set(huge)]
-    heavy = [h for h in harness_names if h in set(heavy) and h not in huge]
-    light = [h for h in harness_names if h not in set(heavy) and h not in huge]
+    mid = [h for h in harness_names if h in set(mid) and h not in huge]
+    heavy = [h for h in harness_names if h in set(heavy) and h not in huge and h not in mid]
+    light = [h for h in harness_names if h not in set(heavy) and h not in huge and h not in mid]
     bs = batch or int(os.environ.get("FV_BATCH", "40"))
-    batches = [(light[i:i + bs], jobs) for i in range(0, len(light), bs)] + [(heavy[i:i + 3], min(jobs, 3)) for i in range(0, len(heavy), 3)] + [([h], 1) for h in huge]
+    batches = [(light[i:i + bs], jobs) for i in range(0, len(light), bs)] + [(heavy[i:i + 3], min(jobs, 3)) for i in range(0, len(heavy), 3)] + [(mid[i:i + 8], min(jobs, 4)) for i in range(0, len(mid), 8)] + [([h], 1) for h in huge]
     t0 = time.time()
     merged = None
     res = dict(cmd="", out="", json=None, wall_s=0.0, timed_out=False, rc=0, killed=[], peak_rss_kb=0, peak_driver_kb=0, batches=len(batches))
